@@ -11,6 +11,7 @@ namespace {
 [[nodiscard]] bool IsStructureDomain(SyntaxTree::Cursor iter, Index index);
 void MangleRadicals(const std::string& funcName, Typification& type);
 void BindFreeRadicals(Typification::Substitutes& substitutes, const Typification& arg, const Typification& value);
+[[nodiscard]] bool HasInvalidIndex(const std::vector<Index>& indicies) noexcept;
 
 std::string ToString(const ExpressionType& type) noexcept(false) {
   return std::visit(
@@ -49,6 +50,12 @@ bool IsStructureDomain(SyntaxTree::Cursor iter) {
 bool IsStructureDomain(SyntaxTree::Cursor iter, const Index index) {
   iter.MoveToChild(index);
   return IsStructureDomain(iter);
+}
+
+bool HasInvalidIndex(const std::vector<Index>& indicies) noexcept {
+  // Note: this index is out of range for a tuple of any arity
+  return std::any_of(begin(indicies), end(indicies),
+    [](const Index index) noexcept { return index < Typification::PR_START; });
 }
 
 bool IsRadical(const std::string& alias) {
@@ -942,6 +949,15 @@ bool TypeAuditor::ViProjectSet(Cursor iter) {
   }
   const auto& argument = maybeArgument.value();
   if (argument.IsAnyType()) {
+    // Note: components of the argument are unknown, but indicies still should be valid for some tuple
+    if (HasInvalidIndex(iter->data.ToTuple())) {
+      OnError(
+        SemanticEID::invalidProjectionSet,
+        iter(0).pos.start,
+        { iter->ToString(), argument.ToString() }
+      );
+      return false;
+    }
     return SetCurrent(Typification::EmptySet());
   }
   if (!argument.IsTuple()) {
@@ -979,6 +995,15 @@ bool TypeAuditor::ViProjectTuple(Cursor iter) {
   }
   const auto& argument = std::get<Typification>(maybeArgument.value());
   if (argument.IsAnyType()) {
+    // Note: components of the argument are unknown, but indicies still should be valid for some tuple
+    if (HasInvalidIndex(iter->data.ToTuple())) {
+      OnError(
+        SemanticEID::invalidProjectionTuple,
+        iter(0).pos.start,
+        { iter->ToString(), argument.ToString() }
+      );
+      return false;
+    }
     return SetCurrent(argument);
   }
   if (!argument.IsTuple()) {
@@ -1022,18 +1047,29 @@ bool TypeAuditor::ViFilter(Cursor iter) {
   }
   const auto& argument = std::get<Typification>(maybeArgument.value());
   if (argument.IsAnyType() || (argument.IsCollection() && argument.B().Base().IsAnyType())) {
-    // Note: components of the argument are unknown, but parameters still should be typed sets
+    // Note: components of the argument are unknown, but indicies still should be valid for some tuple
+    if (HasInvalidIndex(indicies)) {
+      OnError(
+        SemanticEID::invalidFilterArgumentType,
+        iter(static_cast<Index>(iter.ChildrenCount() - 1)).pos.start,
+        { iter->ToString(), argument.ToString() }
+      );
+      return false;
+    }
+    // Note: parameters still should be typed sets, single parameter for several indicies is a set of tuples
+    const auto expected = tupleParam ? Typification::EmptySet() :
+      Typification::Tuple(std::vector<Typification>(size(indicies), Typification::EmptySet().B().Base())).ApplyBool();
     for (Index child = 0; child + 1 < iter.ChildrenCount(); ++child) {
       const auto param = ChildType(iter, child);
       if (!param.has_value()) {
         return false;
       }
       const auto& paramType = std::get<Typification>(param.value());
-      if (!paramType.IsCollection()) {
+      if (!paramType.IsCollection() || !env.AreCompatible(expected, paramType)) {
         OnError(
           SemanticEID::typesNotEqual,
           iter(child).pos.start,
-          Typification::EmptySet(), paramType
+          expected, paramType
         );
         return false;
       }
